@@ -20,7 +20,7 @@ from .baton import SimInternalError, TaskHung
 from .net import SimStall
 
 VERIF = os.path.dirname(os.path.dirname(os.path.abspath(__file__)))
-RUN_WALL_S = 60          # per-run wall watchdog
+RUN_WALL_S = 300         # per-run wall watchdog (generous: a loaded machine must not turn a heavy run into an error)
 SEED_STRIDE = 1_000_003
 
 
